@@ -128,8 +128,39 @@ func (m *fmMod) op(e *lib.Env, st Step) (string, lib.Outcome) {
 	panic("farm: unknown op " + st.K)
 }
 
-func genFM(r *lib.Rand, h *History) {
+func fmSweep() []func(*FMParams) {
+	var fs []func(*FMParams)
+	for _, v := range sweepRates() {
+		v := v
+		fs = append(fs, func(p *FMParams) { p.Tax = v })
+	}
+	for _, v := range sweepAmounts() {
+		v := v
+		fs = append(fs, func(p *FMParams) { p.PCF.A = v })
+	}
+	for _, d := range []int{0, 2, 3} {
+		d := d
+		fs = append(fs, func(p *FMParams) { p.PCF.D = d })
+	}
+	for _, c := range []uint32{0, 1, 3, 4294967295} {
+		c := c
+		fs = append(fs, func(p *FMParams) { p.MaxCat = c })
+	}
+	return fs
+}
+
+func genFM(r *lib.Rand, h *History, i int) {
 	p := FMParams{PCF: Coin{1, sp("5000")}, MaxCat: 2, Tax: sp("400000000000000000")}
+	if sw := fmSweep(); i < len(sw) {
+		sw[i](&p)
+		h.FM = &p
+		h.Via = sweepVia(i)
+		amt := func(lo, hi int64) string { return big.NewInt(r.Range(lo, hi)).String() }
+		h.Steps = []Step{{"create_pool", []string{"1", amt(100000, 1000000), amt(1, 1000)}}, {"stake", []string{amt(1, 1000000)}},
+			{"blocks", []string{"2"}}, {"harvest", nil}, {"create_pool", []string{"2", amt(100000, 1000000), amt(1, 1000)}},
+			{"create_pool", []string{"3", amt(100000, 1000000), amt(1, 1000)}}, {"unstake", []string{amt(1, 1000)}}}
+		return
+	}
 	nvar := 1 + r.Weighted(6, 2, 1)
 	if r.Chance(1, 10) {
 		nvar = 0
